@@ -1,5 +1,5 @@
 (** Verifier family: case type and checker. *)
-From GV Require Export World Reviews Verdict.
+From GV Require Export World Reviews Tags Verdict.
 
 Inductive vmode := MFull | MLatest | MFrom (i : nat).
 Inductive wobs := WO (v : vout) | VPanic.
@@ -10,7 +10,8 @@ Inductive wcase :=
 | WCase (w : world) (ref : bytes) (m : vmode) (obs : wobs)
 | WFindingCase (k : nat) (w : world) (ref : bytes) (m : vmode) (obs : wobs)          (* replay of a listed finding *)
 | WCaseMono (w w_noglobals : world) (ref : bytes) (m : vmode) (obs obs_ng : wobs)   (* C11: P with and without its global rules *)
-| WReview (rw : rworld) (ref : bytes) (obs : wobs).                                  (* C09: latest-only verification with code-review approvals *)
+| WReview (rw : rworld) (ref : bytes) (obs : wobs)
+| WTags (tw : tworld) (ref : bytes) (obs : wobs).                                    (* C01: entries of a tag reference *)                                  (* C09: latest-only verification with code-review approvals *)
 
 Definition verr_eqb (a b : verr) : bool :=
   match a, b with
@@ -65,6 +66,16 @@ Definition wcase_check (c : wcase) : verdict :=
           if vout_ok o && negb (latest_justified rw ref) then VSpec 4
           else if negb (vout_eqb mo o) then VMismatch 4 else VOk
       end
+  | WTags tw ref o =>
+      match o with
+      | VPanic => VSpec 9
+      | WO o =>
+          if negb (tag_shape (tw_world tw) ref) then VMismatch 9
+          else
+            let mo := verify_full_tags tw ref in
+            if negb (Bool.eqb (vout_ok mo) (vout_ok o)) then VSpec 5
+            else if vout_ok o && negb (vout_eqb mo o) then VSpec 5 else VOk
+      end
   | WCaseMono w w' ref m o o' =>
       match check1 w ref m o, check1 w' ref m o' with
       | VOk, VOk =>
@@ -82,4 +93,5 @@ Definition wcase_model (c : wcase) : vout :=
   match c with
   | WCase w ref m _ | WFindingCase _ w ref m _ | WCaseMono w _ ref m _ _ => run_mode w ref m
   | WReview rw ref _ => verify_latest_r rw ref
+  | WTags tw ref _ => verify_full_tags tw ref
   end.
